@@ -48,6 +48,14 @@ class SemgrepRuleDetector(BaseDetector):
         yaml_files = self.get_yaml_files(codemod_id)
         with context.timer.measure("semgrep"):
             files_to_analyze = context.semgrep_results_for_rule(codemod_id)
+            if context.semgrep_prefilter_results:
+                # the pre-filter ran before any codemod modified the tree: it is
+                # stale for the files that earlier codemods of this run rewrote
+                files_to_analyze = list(
+                    dict.fromkeys(
+                        [*files_to_analyze, *context.files_changed_since_prefilter()]
+                    )
+                )
             return semgrep_run(context, yaml_files, files_to_analyze)
 
 
